@@ -504,6 +504,17 @@ def cell_typelab(cell):
                 continue
             out.ev('history-steps')
             results.append(r)
+            # the caller's own argument LIST stays the caller's: writing to it after
+            # the call must not reach the instantiation
+            d_r = dg.fast_digest(r)
+            saved0 = args[0]
+            args[0] = pool[rng.choice(U)]
+            out.ev('caller-list-writes')
+            if dg.fast_digest(r) != d_r:
+                out.violation({'rule': 'result-aliases-argument-list', 'op': 'new'},
+                              'writing to the list passed to new() changed the instantiation %s' % (
+                                  terms.term_str(terms.to_term(r))), {'spec': spec, 'args': [terms.term_str(x) for x in args_t]})
+            args[0] = saved0
             k = rng.random()
             try:
                 if k < 0.25:
